@@ -41,6 +41,9 @@ def _cons_fn(spec):
             v = X[:, 0] - c
         elif kind == "ball":
             v = np.sum(X ** 2, axis=1) - c
+        elif kind == "nan_half":        # NaN on part of the domain (e.g. a square root of a negative number)
+            with np.errstate(all="ignore"):
+                v = X[:, -1] - c - np.sqrt(X[:, 0] + c)
         elif kind == "all":
             v = np.ones(len(X))
         else:
@@ -55,8 +58,9 @@ def _cons_fn(spec):
 
 def _violated(spec, p):
     f = _cons_fn(spec)
-    r = f(np.array([p], dtype=float))[0]
-    return bool(r > 0)
+    with np.errstate(all="ignore"):
+        r = f(np.array([p], dtype=float))[0]
+    return not bool(r <= 0)        # the filter keeps a row iff its constraint value is <= 0: a NaN value is "not satisfied"
 
 
 def _req(case, cmd, table=None, out=None):
@@ -96,7 +100,7 @@ def gen_cases(ctx):
             hi = [hi[0], np.inf]
         if hi[1] == np.inf:
             lo = [lo[0], -np.inf]
-        cons = rng.choice([None, None, ("sum_gt", 2.0, "float"), ("first_gt", 1.0, "bool"), ("ball", 2.0, "float"), ("all", 0, "bool"), ("none", 0, "float"), ("sum_gt", 2.0, "tiny"), ("ball", 2.0, "tiny")])
+        cons = rng.choice([None, None, ("sum_gt", 2.0, "float"), ("first_gt", 1.0, "bool"), ("ball", 2.0, "float"), ("all", 0, "bool"), ("none", 0, "float"), ("sum_gt", 2.0, "tiny"), ("ball", 2.0, "tiny"), ("nan_half", 0.5, "float")])
         cases.append({"U": U, "lo": lo, "hi": hi, "tol": rng.choice([1.0, 0.5, 2.0]), "logX": L,
                       "proj": rng.random() < 0.6, "cons": cons, "kind": "lattice2"})
     # (b) random dyadic candidates on the search mesh, D <= 5, with near-coincidences
@@ -113,7 +117,7 @@ def gen_cases(ctx):
         bounded = rng.random() < 0.8
         lo = [(-h * rng.randint(1, 5)) if bounded else -np.inf for _ in range(D)]
         hi = [(h * rng.randint(1, 5)) if bounded else np.inf for _ in range(D)]
-        cons = rng.choice([None, None, ("sum_gt", 0.0, "float"), ("first_gt", 0.0, "bool"), ("ball", (3 * h) ** 2, "float"), ("sum_gt", 0.0, "tiny")])
+        cons = rng.choice([None, None, ("sum_gt", 0.0, "float"), ("first_gt", 0.0, "bool"), ("ball", (3 * h) ** 2, "float"), ("sum_gt", 0.0, "tiny"), ("nan_half", h, "float")])
         cases.append({"U": U, "lo": lo, "hi": hi, "tol": tol, "logX": L, "proj": rng.random() < 0.6,
                       "cons": cons, "kind": "dyadic"})
     return cases
@@ -203,7 +207,7 @@ def evaluated_sets(ctx, rep):
         case = {"kind": "filter_run", "spec": sp, "event_index": -1}
         half = Fraction(t["hdr"]["tol_mesh"]) / 2
         lb, ub = t["hdr"]["lb"], t["hdr"]["ub"]
-        infeasible = t["final"].get("cons_at_calls") if t.get("final") else None
+        infeasible = (t["final"].get("cons_unsat_at_calls") or t["final"].get("cons_at_calls")) if t.get("final") else None
         groups, cur = {}, None
         for k, e in t["events"]:
             if k == "CALL" and "exc" not in e and e["rec"] and e["k"] > 0:
